@@ -97,6 +97,23 @@ def execute_cli_kill(cases, tier, disagreements, cats, keys):
         finally:
             sb.close()
         n += 1
+        # the same run with stale temp files left behind by an earlier interrupted run (longer than anything this run writes):
+        # the result must not depend on them
+        if not (r["hung"] or r["rc"] != 0):
+            sb = clirun.Sandbox("c08")
+            try:
+                stale = "# stale temp content of an interrupted run\n" + "query T\nselect 'a-rather-long-cell-value'\n----\nsome-other-long-cell-value\n\n" * 40
+                sb.write_files(c["files"] + [[rel + ".temp", stale] for rel, _ in c["files"]])
+                rs_ = sb.run(["--override", "main.slt"], scenario={"rules": []}, timeout=60)
+                new2, debris2 = read_tree(sb, c["files"])
+            finally:
+                sb.close()
+            n += 1
+            cats["cli with stale temp files"] += 1
+            if new2 != new or debris2:
+                disagreements.append({"case": dict(c, stale_temp=True), "impl": {"rc": rs_["rc"], "new": new2, "debris": debris2}, "model": new,
+                                      "spec": "contradicts L1 (C08_final): with stale `*.temp` files present the rewritten files differ from those of a run in a clean directory (or temp files remain): %r" % (
+                                          {k: (v or "")[-80:] for k, v in new2.items() if v != new.get(k)},), "broken": "corr_C08_cli"})
         nreq = sum(1 for e in r["events"] if e["ev"] == "SQL")
         spec = None
         if r["hung"] or r["rc"] != 0:
